@@ -21,8 +21,11 @@ while args:
         break
 SEEDED = '/verif/seeded'
 EXTRA = {   # cross-property detectors worth running in addition to the defect's own property
-    'C01-m2': ['C07'], 'C02-m1': [], 'C02-m2': ['C16'], 'C03-m1': ['C05'], 'C03-m2': ['C17', 'C05'], 'C13-m2': ['C05'],
-    'C06-m2': ['C05'], 'C17-m1': ['C05'],
+    'C01-m2': ['C07'], 'C01-m3': ['C08', 'C04'], 'C01-m4': ['C16'],
+    'C02-m2': ['C16'], 'C02-m3': ['C05', 'C06', 'C03'], 'C02-m4': ['C01'],
+    'C03-m1': ['C05'], 'C03-m2': ['C17', 'C05'], 'C03-m3': ['C01'], 'C03-m4': ['C05', 'C17'],
+    'C06-m2': ['C05'], 'C10-m4': ['C07', 'C01'], 'C11-m3': ['C16'], 'C11-m4': ['C03'],
+    'C13-m2': ['C05'], 'C13-m4': ['C06'], 'C17-m1': ['C05'],
 }
 res_path = os.path.join(SEEDED, 'RESULTS.json')
 results = json.load(open(res_path)) if os.path.exists(res_path) else {}
